@@ -1,10 +1,22 @@
 import Tickit.Model.RBCopy
 import Tickit.Proof.RBCopy
+import Tickit.Proof.RBCopyMove
 /-
   C13 — copying, moving and blitting buffer regions preserve content cell for cell.
 
-  `Variant.repaired` is the text of `copyrect` with fixes/C13_1 and fixes/C13_2 applied (what the driver runs
-  against the repaired tree); `Variant.asFound` / `Variant.captured` carry the counterexamples.
+  `Variant.repaired` is the text of `copyrect` with fixes/C13_1_copyrect_run_state.patch and
+  fixes/C13_2_copyrect_text_by_reference.patch applied (what the driver runs against the repaired tree);
+  `Variant.asFound` (the code as found) and `Variant.captured` (first repair only) carry the counterexamples.
+
+  Vocabulary (Model/RBCopy.lean, second half): `absContent rb L C` — what cell `(L, C)` shows (`skip`, `text pen s k`,
+  `erase pen`, `line pen mask`, `char pen cp`); `writable rb L C` — inside buffer and clip, not masked;
+  `copyExpect` / `selfCopyExpect` / `moveExpect` / `blitExpect` — the cell-wise specification: a destination cell
+  that clip and mask allow shows what the source cell at the same offset showed *before* the call, its pen
+  completed from the buffer's current pen (`completePen`), line segments merged into a line cell already there
+  (`mergeLine`); every other cell shows what it showed before.
+  `WF rb` (Proof/RBCopyPrim.lean) is the run-structure invariant of the render buffer (runs tile every line, CONT
+  cells point at their run's start, LINE/CHAR cells are one column, mask depths in [-1, depth], clip inside the
+  buffer); it holds of `RB.new` and is preserved by every drawing operation (property C03).
 -/
 namespace Tickit.Props.C13
 open Tickit Tickit.RB Tickit.RBCopy
@@ -30,6 +42,121 @@ theorem copy_keeps_aux_state_captured (rb : RB) (dr sr : Rect) :
     SameAux (copy Variant.captured rb dr sr) rb :=
   sameAux_copy _ rfl rb dr sr
 
+/-! ## Copy -/
+
+/-- The source rectangle lies inside the buffer and has positive extent. -/
+def Inside (rb : RB) (sr : Rect) : Prop :=
+  0 ≤ sr.top ∧ sr.top + sr.lines ≤ rb.lines ∧ 0 ≤ sr.left ∧ sr.left + sr.cols ≤ rb.cols ∧ sr.Nonempty
+
+/-- **Copy, cell for cell** — every overlap direction, rectangle edges anywhere relative to the runs, any clip,
+    masks, pen and stack.  With no translation in force, after `copyrect(rb, dest, src)` every cell shows what the
+    specification `selfCopyExpect` says; the result is well-formed and no mask depth changed. -/
+theorem copy_spec (rb : RB) (dr sr : Rect) (hwf : WF rb) (hxl : rb.xlLine = 0) (hxc : rb.xlCol = 0)
+    (hin : Inside rb sr) :
+    (∀ L C, absContent (copy Variant.repaired rb dr sr) L C = selfCopyExpect rb dr sr L C) ∧
+    WF (copy Variant.repaired rb dr sr) ∧
+    (∀ l c, 0 ≤ l → l < rb.lines → 0 ≤ c → c < rb.cols →
+      (((copy Variant.repaired rb dr sr).cells l).get c).maskdepth = ((rb.cells l).get c).maskdepth) :=
+  let r := copy_result rb dr sr hwf hxl hxc hin.1 hin.2.1 hin.2.2.1 hin.2.2.2.1 hin.2.2.2.2
+  ⟨r.content, r.wf, r.mask⟩
+
+/-- The destination clause spelled out: a destination cell that clip and mask allow takes the content the source
+    cell at the same offset had before the call (pen completed, lines merged). -/
+theorem copy_spec_destination (rb : RB) (dr sr : Rect) (hwf : WF rb) (hxl : rb.xlLine = 0) (hxc : rb.xlCol = 0)
+    (hin : Inside rb sr) (hmoved : ¬ (dr.top = sr.top ∧ dr.left = sr.left)) (L C : Int)
+    (hsrc : sr.Mem (L - (dr.top - sr.top)) (C - (dr.left - sr.left))) (hw : writable rb L C = true) :
+    absContent (copy Variant.repaired rb dr sr) L C =
+      match absContent rb (L - (dr.top - sr.top)) (C - (dr.left - sr.left)) with
+      | .skip => .skip
+      | c => transfer rb.pen c (absContent rb L C) := by
+  rw [(copy_spec rb dr sr hwf hxl hxc hin).1 L C]
+  unfold selfCopyExpect copyExpect
+  rw [if_neg hmoved, (Rect.memb_iff sr _ _).2 hsrc, hw]
+  simp only [Bool.and_self, if_true]
+  cases absContent rb (L - (dr.top - sr.top)) (C - (dr.left - sr.left)) <;> rfl
+
+/-- All other cells are unchanged. -/
+theorem copy_spec_elsewhere (rb : RB) (dr sr : Rect) (hwf : WF rb) (hxl : rb.xlLine = 0) (hxc : rb.xlCol = 0)
+    (hin : Inside rb sr) (L C : Int)
+    (h : ¬ (sr.Mem (L - (dr.top - sr.top)) (C - (dr.left - sr.left)) ∧ writable rb L C = true)) :
+    absContent (copy Variant.repaired rb dr sr) L C = absContent rb L C := by
+  rw [(copy_spec rb dr sr hwf hxl hxc hin).1 L C]
+  unfold selfCopyExpect copyExpect
+  by_cases hid : dr.top = sr.top ∧ dr.left = sr.left
+  · rw [if_pos hid]
+  · rw [if_neg hid]
+    have : ¬ ((sr.memb (L - (dr.top - sr.top)) (C - (dr.left - sr.left)) && writable rb L C) = true) := by
+      intro hh
+      rw [Bool.and_eq_true, Rect.memb_iff] at hh
+      exact h hh
+    rw [if_neg this]
+
+/-! ## Move -/
+
+/-- **Move**: as the copy, and the vacated source cells (those of the source rectangle that are not destination
+    cells) that clip and mask allow are skipped.  Stated for every run of the rectangle-set computation of the
+    vacated area that returns (`clearArea … = some _`; see `move_clearArea_returns` below). -/
+theorem move_spec (rb : RB) (dr sr : Rect) (hwf : WF rb) (hxl : rb.xlLine = 0) (hxc : rb.xlCol = 0)
+    (hin : Inside rb sr) {rects : List Rect} (hca : clearArea dr sr = some rects) :
+    (∀ L C, absContent (move Variant.repaired rb dr sr) L C = moveExpect rb dr sr L C) ∧
+    WF (move Variant.repaired rb dr sr) ∧
+    (∀ l c, 0 ≤ l → l < rb.lines → 0 ≤ c → c < rb.cols →
+      (((move Variant.repaired rb dr sr).cells l).get c).maskdepth = ((rb.cells l).get c).maskdepth) :=
+  let r := move_result rb dr sr hwf hxl hxc hin.1 hin.2.1 hin.2.2.1 hin.2.2.2.1 hin.2.2.2.2 hca
+  ⟨r.content, r.wf, r.mask⟩
+
+/-- The vacated cells, spelled out. -/
+theorem move_spec_vacated (rb : RB) (dr sr : Rect) (hwf : WF rb) (hxl : rb.xlLine = 0) (hxc : rb.xlCol = 0)
+    (hin : Inside rb sr) {rects : List Rect} (hca : clearArea dr sr = some rects) (L C : Int)
+    (hs : sr.Mem L C) (hd : ¬ Rect.Mem ⟨dr.top, dr.left, sr.lines, sr.cols⟩ L C) (hw : writable rb L C = true) :
+    absContent (move Variant.repaired rb dr sr) L C = .skip := by
+  rw [(move_spec rb dr sr hwf hxl hxc hin hca).1 L C]
+  unfold moveExpect
+  have : Rect.memb ⟨dr.top, dr.left, sr.lines, sr.cols⟩ L C = false := by
+    rw [Bool.eq_false_iff]; exact fun hh => hd ((Rect.memb_iff _ _ _).1 hh)
+  rw [(Rect.memb_iff sr _ _).2 hs, this, hw]
+  rfl
+
+/-- The rectangle-set computation of the vacated area returns exactly the vacated cells whenever it returns. -/
+theorem move_vacated_area_exact (dr sr : Rect) (hsr : sr.Nonempty) {rects : List Rect} (hca : clearArea dr sr = some rects) :
+    ∀ l c, Covered rects l c ↔ (sr.Mem l c ∧ ¬ Rect.Mem ⟨dr.top, dr.left, sr.lines, sr.cols⟩ l c) :=
+  (clearArea_region hca hsr).2
+
+/-- Open: the rectangle-set computation (`tickit_rectset_add` of at most four pieces of `tickit_rect_subtract`
+    into an empty set) never runs out of the model's fuel.  (Termination of `tickit_rectset_add` is the open part
+    of C05; the correspondence runs never produced `OUT-OF-FUEL`.) -/
+def move_clearArea_returns : Prop :=
+  ∀ (dr sr : Rect), sr.Nonempty → ∃ rects, clearArea dr sr = some rects
+
+/-! ## Blit -/
+
+/-- **Blit** overlays exactly the source's non-skipped cells (at the destination's translation, through the
+    destination's clip and masks, pens completed from the destination's pen); the source is not touched (it is
+    not even an argument of the result). -/
+theorem blit_spec (dst src : RB) (hwf : WF dst) (hsrc : WF src) (hl : 0 ≤ src.lines) (hc : 0 ≤ src.cols) :
+    (∀ L C, absContent (blit Variant.repaired false dst src) L C = blitExpect dst src L C) ∧
+    WF (blit Variant.repaired false dst src) ∧
+    (∀ l c, 0 ≤ l → l < dst.lines → 0 ≤ c → c < dst.cols →
+      (((blit Variant.repaired false dst src).cells l).get c).maskdepth = ((dst.cells l).get c).maskdepth) :=
+  let r := blit_result dst src hwf hsrc hl hc
+  ⟨r.content, r.wf, r.mask⟩
+
+/-- A skipped source cell leaves the destination cell alone. -/
+theorem blit_spec_skip (dst src : RB) (hwf : WF dst) (hsrc : WF src) (hl : 0 ≤ src.lines) (hc : 0 ≤ src.cols) (L C : Int)
+    (hs : absContent src (L - dst.xlLine) (C - dst.xlCol) = .skip) :
+    absContent (blit Variant.repaired false dst src) L C = absContent dst L C := by
+  rw [(blit_spec dst src hwf hsrc hl hc).1 L C]
+  unfold blitExpect copyExpect
+  rw [hs]
+  simp
+
+/-- Blitting a buffer onto itself does nothing. -/
+theorem blit_self (rb : RB) : blit Variant.repaired true rb rb = rb := by
+  unfold blit copyrect
+  simp
+
+/-! ## The defects of the code as found -/
+
 /-- A buffer with a skipped run in the middle of a line and one saved frame. -/
 def cexStack : RB := save (goto (skipAt (RB.new 3 5 0 0) 1 1 2) 1 1)
 
@@ -47,7 +174,43 @@ theorem copy_keeps_aux_state_counterexample_as_found :
   rw [copy_pops_callers_frame_as_found.1, copy_pops_callers_frame_as_found.2.1] at this
   exact absurd this (by decide)
 
-/-- Non-vacuity: the repaired copy on the same input keeps the frame. -/
+/-- An erase run `[1,5)` on line 1 of a 2 × 7 buffer. -/
+def cexRun : RB := eraseAt (RB.new 2 7 0 0) 1 1 4
+
+theorem cexRun_wf : WF cexRun := (eraseRun_spec (wf_new 2 7 0 0 (by decide) (by decide)) 1 1 4).wf
+
+/-- As found, when the rectangle's left edge falls inside a run the piece copied is as long as the whole run and the
+    scan advances by the whole run: copying columns 3..5 two to the left leaves an erase cell where the skipped
+    cell (1,5) should have gone. -/
+theorem copy_misses_cell_as_found :
+    absContent (copy Variant.asFound cexRun ⟨0, 1, 2, 3⟩ ⟨0, 3, 2, 3⟩) 1 3 = .erase {} ∧
+    selfCopyExpect cexRun ⟨0, 1, 2, 3⟩ ⟨0, 3, 2, 3⟩ 1 3 = .skip := by
+  decide +kernel
+
+theorem copy_spec_counterexample_as_found :
+    ¬ (∀ (rb : RB) (dr sr : Rect), WF rb → rb.xlLine = 0 → rb.xlCol = 0 → Inside rb sr →
+        ∀ L C, absContent (copy Variant.asFound rb dr sr) L C = selfCopyExpect rb dr sr L C) := by
+  intro h
+  have := h cexRun ⟨0, 1, 2, 3⟩ ⟨0, 3, 2, 3⟩ cexRun_wf rfl rfl (by unfold Inside Rect.Nonempty; decide) 1 3
+  rw [copy_misses_cell_as_found.1, copy_misses_cell_as_found.2] at this
+  exact absurd this (by decide)
+
+/-! ## Non-vacuity -/
+
+/-- The hypotheses of `copy_spec` are inhabited by a buffer with a run that both rectangle edges cut, and the
+    repaired copy puts the skipped cell where the as-found code left an erase cell. -/
+example : WF cexRun ∧ cexRun.xlLine = 0 ∧ cexRun.xlCol = 0 ∧ Inside cexRun ⟨0, 3, 2, 3⟩ ∧
+    absContent (copy Variant.repaired cexRun ⟨0, 1, 2, 3⟩ ⟨0, 3, 2, 3⟩) 1 3 = .skip ∧
+    absContent (copy Variant.repaired cexRun ⟨0, 1, 2, 3⟩ ⟨0, 3, 2, 3⟩) 1 2 = .erase {} :=
+  ⟨cexRun_wf, rfl, rfl, by unfold Inside Rect.Nonempty; decide, by decide +kernel, by decide +kernel⟩
+
+/-- The repaired copy on the stack example keeps the frame. -/
 example : (copy Variant.repaired cexStack ⟨0, 0, 2, 4⟩ ⟨0, 1, 2, 4⟩).depth = 1 := by decide +kernel
+
+/-- `move_spec`'s hypothesis about the vacated-area computation is inhabited (overlapping move to the left). -/
+example : clearArea ⟨0, 1, 2, 3⟩ ⟨0, 3, 2, 3⟩ = some [⟨0, 4, 2, 2⟩] := by decide +kernel
+
+/-- `blit_spec`'s hypotheses are inhabited. -/
+example : WF (RB.new 2 4 0 0) ∧ WF cexRun := ⟨wf_new 2 4 0 0 (by decide) (by decide), cexRun_wf⟩
 
 end Tickit.Props.C13
